@@ -88,6 +88,18 @@ CLAIMED = {
              "construct.*, sweeping.sweep_vector, operations.transpose/flip, Surface.ctrlpts2d, control_points managers and compatibility flips.",
         technique="TLA+ spec (Layout, MC_C13) model-checked exhaustively with TLC; spec->code replay of every transition",
         design="4 C13"),
+    "C18": dict(
+        text="For every shape and parameter of the lattice TLC produces an exact convex-combination certificate over exactly the active control "
+             "points (lambda_i = N_i w_i / sum N_j w_j >= 0, sum 1) and shows the point inside the bounding box; the replay checks the "
+             "certificate against the code's own control points and evaluation, bbox, find_ctrlpts, clamped end points and the length bounds.",
+        technique="TLA+ spec (MC_C18, Lambda certificate) model-checked exhaustively with TLC; spec->code replay of every transition",
+        design="4 C18"),
+    "C20": dict(
+        text="All ray pairs on {0,1,2}^2 and {0,1}^3 (status and exact parameters), all simple lattice polygons against all off-boundary "
+             "half-integer query points (crossing definition with a generic ray), all point sets for the hull (strictly convex, CCW, contains "
+             "all points), orientation test, voxel grids (closed-box membership of exact samples) and active control point lookup.",
+        technique="TLA+ spec (Planar, MC_C20, MC_C20b) model-checked exhaustively with TLC; spec->code replay of every transition",
+        design="4 C20"),
 }
 
 PENDING_REASON = "check not built yet (work in progress, see DESIGN.md section 8 build order)"
